@@ -155,6 +155,17 @@ def replay_frame(arg):
                     i, st, cnt, sorted(so["statuses"]), so["inside"], so["boundary"]), rep))
             if not (so["inside"] <= cnt <= so["inside"] + so["boundary"]):
                 mism.append(("object-inside-count", "object %d: %d points inside, specification %d..%d" % (i, cnt, so["inside"], so["inside"] + so["boundary"]), rep))
+        # the prisms themselves: inside / outside selections (both orientations) against the specification's membership
+        if how == "frame_result":
+            for k, a in enumerate(areas):
+                pin = {index[tuple(p)] for p in out["prisms"][k]["inside"]}
+                pbd = {index[tuple(p)] for p in out["prisms"][k]["boundary"]}
+                gi_ = ids(crop_pointcloud(cl, area_list(a), inside=True))
+                go_ = ids(crop_pointcloud(cl, area_list(a), inside=False))
+                if not (pin <= gi_ <= pin | pbd):
+                    mism.append(("prism-inside", "area %d: inside selection differs from the prism membership" % k, rep))
+                if gi_ & go_ or len(gi_) + len(go_) != len(cl):
+                    mism.append(("prism-partition", "area %d: inside (%d) and outside (%d) selections do not partition the cloud (%d)" % (k, len(gi_), len(go_), len(cl)), rep))
         got_arrays = [ids(a) for a in fr.pointcloud_failed_non_detection]
         gi = 0
         for k, a in enumerate(out["areas"]):
